@@ -173,6 +173,43 @@ def run_bfs(chk, event_names, depth, caps, agg, label, seeds=((),)):
     return frontier
 
 
+def capacity_histories(chk, agg):
+    """long histories: n saved terms, then a Load of the last one -- either the call is refused or the bytes address the
+    slot that holds the intended term (the operand is one byte)"""
+    from . import interp_explore as ix
+    P = ix.P
+    h = common.Harness()
+    for n in (200, 255, 256, 257, 300):
+        sim = ix.Sim()
+        it = sim.it
+        terms = [P.EVar(i) if i < 256 else P.App(P.EVar(i - 256), P.EVar(0)) for i in range(n)]
+        try:
+            for i, t in enumerate(terms):
+                x = it.pattern(t)
+                it.save(f'm{i}', x)
+                it.pop(x)
+        except Exception as ex:  # noqa: BLE001
+            agg['capacity_refused'] = agg.get('capacity_refused', 0) + 1
+            continue
+        agg['capacity_histories'] = agg.get('capacity_histories', 0) + 1
+        for k in sorted({0, n // 2, n - 1}):
+            try:
+                it.load(f'm{k}', it.memory[k])
+            except Exception:  # noqa: BLE001
+                agg['capacity_load_refused'] = agg.get('capacity_load_refused', 0) + 1
+                continue
+            g, c, p = sim.bytes3()
+            d = h.run(g, c, p, sim.phase_no())
+            want = rm.show(ix.bridge.expand(terms[k]))
+            top = d.split('|')[0].split(';')[-1] if d else None
+            if top is None or top[2:] != want:
+                sig = {'kind': 'load_addresses_wrong_slot', 'saved_terms': n, 'slot': k}
+                chk.violation(sig, {'history': f'{n} x (pattern, save, pop); load {k}', 'signature': sig},
+                              f'after saving {n} terms, load of slot {k} (holding {want}) makes the machine push {top}')
+            agg['capacity_loads'] = agg.get('capacity_loads', 0) + 1
+            it.pop(it.stack[-1])
+
+
 def replay(path: str) -> int:
     v = json.loads(open(path).read())
     hist = tuple(v['replay']['history'])
@@ -223,6 +260,7 @@ def main(argv=None) -> int:
     seed2 = ('pattern (∃ x0 . x0)', 'publish', 'pattern (phi0 -> phi0)', 'publish', 'next phase',
              'pattern (∃ x0 . x0)', 'publish', 'pattern (phi0 -> phi0)', 'publish', 'next phase')
     run_bfs(chk, rules, 5 if thorough else 4, (5, 4, 14), agg, 'both-claims-provable-seed/rules', seeds=(seed2,))
+    capacity_histories(chk, agg)
     chk.set('states', agg.get('states', 0))
     chk.set('transitions', agg.get('transitions', 0))
     chk.set('traces_validated_against_impl', agg.get('accepted', 0))
